@@ -665,6 +665,7 @@ class Registry:
             return self.apply_contract(eng, alt, args, kwargs, st, node, self_expr)
 
     def _apply_contract(self, eng, c: Contract, args, kwargs, st, node, self_expr=None):
+        eng.callees.add(c.key)
         """Modular call: assert pre, fork on each raises-condition, assume post. The callee body is never inspected."""
         lineno = getattr(node, "lineno", 0)
         pnames = list(c.params)
